@@ -1,18 +1,31 @@
 /* C07 property-level harness: compress + decompress through the public libjpeg API
  * (8- and 12-bit, gray / RGB stored as RGB / CMYK, 4:4:4, accurate integer DCT) and
  * report, per 8x8 block of every component, the squared error between source and
- * decoded samples, together with the header bytes of the stream (the check parses
- * DQT/SOF itself and recomputes the bound from the tables actually written).
+ * decoded samples, together with the header bytes of each stream (the check parses
+ * DQT/SOF itself and recomputes the bound from the tables the decoder holds).
  *
- * case line:
- *   api <bits> <ncomp 1|3|4> <w> <h> <kind> <p1> <seed> <quality|-1> <optimize> <direct> <ntab> [<64 q>]*ntab <tq0> <tq1> <tq2> <tq3>
+ * api <bits> <ncomp 1|3|4> <w> <h> <kind> <p1> <seed> <quality|-1> <optimize> <direct> <ntab> [<64 q>]*ntab <tq0..tq3>
+ *     [<bufsize> <refuse%> <sseed>]
  *     kind 0 constant p1 (per component: p1, p1/2+3, MAX-p1, p1/3)   1 uniform noise   2 two-level blocks (edges)
  *          3 gradient   4 extremes (0/MAX checker of period p1)   5 smooth field + noise of amplitude p1
  *     ntab tables are installed with jpeg_add_quant_table(scale 100, force_baseline FALSE), or,
- *     when <direct> is 1, by writing quant_tbl_ptrs[t]->quantval[] (values up to 65535)
- * result line:
- *   api ok <hex of the stream up to and including the SOS marker> | c:bx:by:n:sse:maxabs ...
- *   api err <msg_code>
+ *     when <direct> is 1, by writing quant_tbl_ptrs[t]->quantval[] (values up to 65535).
+ *     With the three optional fields the stream is written through a SUSPENDING destination manager
+ *     (libjpeg.txt "I/O suspension"): buffer of <bufsize> bytes, empty_output_buffer refuses (returns
+ *     FALSE) with probability refuse% while scanlines are written; the application then flushes the
+ *     bytes up to next_output_byte and re-submits the first unconsumed scanline.
+ *   -> api ok <hex of the stream up to and including the SOS marker> | c:bx:by:n:sse:maxabs ... [| susp=<n>]
+ *
+ * seq <bits> <ncomp> <prelude> <tq0..tq3> <nframes> then per frame
+ *     <w> <h> <kind> <p1> <seed> <write_all_tables> <optimize> <nops> then per op
+ *       0 <tbl> <64 q>     jpeg_add_quant_table(tbl, q, 100, FALSE)
+ *       1 <quality>        jpeg_set_quality(quality, FALSE)
+ *       2 <tbl> <64 q>     direct edit of quantval[] + sent_table = FALSE (as libjpeg.txt requires)
+ *       3 <tbl> <64 q> <scale>   jpeg_add_quant_table(tbl, q, scale, FALSE)
+ *     ONE compression object and ONE decompression object for the whole sequence ("abbreviated
+ *     datastreams and multiple images"); prelude 1 = jpeg_write_tables() first, read as a tables-only stream.
+ *   -> seq ok <hex> | blocks ; <hex> | blocks ; ...        (prelude: "<hex> |" with no blocks)
+ * errors: "api err <code>" / "seq err <code> frame <i>"
  */
 #include <stdio.h>
 #include <stdlib.h>
@@ -37,6 +50,7 @@ static unsigned long long rnd(void)
 
 static char *line; static size_t cap;
 static long *vals; static int nvals;
+#define MAXVALS 20000
 
 static void parse(char *p)
 {
@@ -47,7 +61,7 @@ static void parse(char *p)
     if (*p == 0 || *p == '\n') break;
     v = strtol(p, &e, 10);
     if (e == p) break;
-    if (nvals < 400) vals[nvals++] = v;
+    if (nvals < MAXVALS) vals[nvals++] = v;
     p = e;
   }
 }
@@ -62,149 +76,350 @@ static int isin(int x) /* coarse integer sine, period 64, amplitude 256 */
   return s * q[x];
 }
 
-int main(void)
+static unsigned short *gen_image(int bits, int nc, int w, int h, int kind, int p1, unsigned long long seed)
 {
-  struct jpeg_compress_struct cc; struct jpeg_decompress_struct dc; struct jpeg_error_mgr ce, de;
-  unsigned short *src = NULL, *dst = NULL;   /* interleaved samples */
-  unsigned char *jbuf = NULL; unsigned long jlen = 0;
-  setvbuf(stdout, NULL, _IOLBF, 0);
-  vals = malloc(sizeof(long) * 400);
-  cc.err = jpeg_std_error(&ce); ce.error_exit = my_exit; ce.emit_message = my_emit;
-  dc.err = jpeg_std_error(&de); de.error_exit = my_exit; de.emit_message = my_emit;
-  jpeg_create_compress(&cc);
-  jpeg_create_decompress(&dc);
+  unsigned short *src = malloc(sizeof(unsigned short) * w * h * nc);
+  int base[4], lo[4], hi[4], ph[4], fx[4], fy[4], c, x, y, max = (1 << bits) - 1;
+  sm = seed;
+  for (c = 0; c < 4; c++) {
+    base[c] = (int)(rnd() % (max + 1)); lo[c] = (int)(rnd() % (max + 1)); hi[c] = (int)(rnd() % (max + 1));
+    ph[c] = (int)(rnd() % 64); fx[c] = 1 + (int)(rnd() % 5); fy[c] = 1 + (int)(rnd() % 5);
+  }
+  for (y = 0; y < h; y++) for (x = 0; x < w; x++) for (c = 0; c < nc; c++) {
+    int v = 0;
+    switch (kind) {
+    case 0: v = c == 0 ? p1 : c == 1 ? p1 / 2 + 3 : c == 2 ? max - p1 : p1 / 3; break;
+    case 1: v = (int)(rnd() % (max + 1)); break;
+    case 2: v = (((x + ph[c]) / (3 + fx[c])) + ((y + ph[c]) / (2 + fy[c]))) & 1 ? lo[c] : hi[c]; break;
+    case 3: v = base[c] + ((x * fx[c] - y * fy[c]) * (max + 1)) / 256; break;
+    case 4: v = (((x / (p1 > 0 ? p1 : 1)) + (y / (p1 > 0 ? p1 : 1)) + c) & 1) ? 0 : max; break;
+    default: v = (max + 1) / 2 + ((isin(x * fx[c] + ph[c]) + isin(y * fy[c] + 2 * ph[c]) + isin((x + y) * fx[c])) * ((max + 1) / 8)) / 256
+                 + (p1 > 0 ? (int)(rnd() % (2 * p1 + 1)) - p1 : 0); break;
+    }
+    if (v < 0) v = 0;
+    if (v > max) v = max;
+    src[(y * w + x) * nc + c] = (unsigned short)v;
+  }
+  return src;
+}
 
-  while (getline(&line, &cap, stdin) > 0) {
-    int bits, nc, w, h, kind, p1, quality, optimize, direct, ntab, i, c, x, y, t, max, k;
-    int tq[4];
-    if (strncmp(line, "api ", 4)) { printf("unknown\n"); continue; }
-    parse(line + 4);
-    if (nvals < 11) { printf("api badcase\n"); continue; }
-    bits = vals[0]; nc = vals[1]; w = vals[2]; h = vals[3]; kind = vals[4]; p1 = vals[5];
-    sm = (unsigned long long)vals[6]; quality = vals[7]; optimize = vals[8]; direct = vals[9]; ntab = vals[10];
-    if (nvals != 11 + 64 * ntab + 4 || ntab < 0 || ntab > 4 || (nc != 1 && nc != 3 && nc != 4) ||
-        (bits != 8 && bits != 12) || w < 1 || h < 1 || w > 512 || h > 512) { printf("api badcase\n"); continue; }
-    for (i = 0; i < 4; i++) tq[i] = vals[11 + 64 * ntab + i];
-    max = (1 << bits) - 1;
-    free(src); free(dst);
-    src = malloc(sizeof(unsigned short) * w * h * nc); dst = calloc(sizeof(unsigned short), w * h * nc);
-    /* ---- image ---- */
-    {
-      int base[4], lo[4], hi[4], ph[4], fx[4], fy[4];
-      for (c = 0; c < 4; c++) {
-        base[c] = (int)(rnd() % (max + 1)); lo[c] = (int)(rnd() % (max + 1)); hi[c] = (int)(rnd() % (max + 1));
-        ph[c] = (int)(rnd() % 64); fx[c] = 1 + (int)(rnd() % 5); fy[c] = 1 + (int)(rnd() % 5);
-      }
-      for (y = 0; y < h; y++) for (x = 0; x < w; x++) for (c = 0; c < nc; c++) {
-        int v = 0;
-        switch (kind) {
-        case 0: v = c == 0 ? p1 : c == 1 ? p1 / 2 + 3 : c == 2 ? max - p1 : p1 / 3; break;
-        case 1: v = (int)(rnd() % (max + 1)); break;
-        case 2: v = (((x + ph[c]) / (3 + fx[c])) + ((y + ph[c]) / (2 + fy[c]))) & 1 ? lo[c] : hi[c]; break;
-        case 3: v = base[c] + ((x * fx[c] - y * fy[c]) * (max + 1)) / 256; break;
-        case 4: v = (((x / (p1 > 0 ? p1 : 1)) + (y / (p1 > 0 ? p1 : 1)) + c) & 1) ? 0 : max; break;
-        default: v = (max + 1) / 2 + ((isin(x * fx[c] + ph[c]) + isin(y * fy[c] + 2 * ph[c]) + isin((x + y) * fx[c])) * ((max + 1) / 8)) / 256
-                     + (p1 > 0 ? (int)(rnd() % (2 * p1 + 1)) - p1 : 0); break;
-        }
-        if (v < 0) v = 0;
-        if (v > max) v = max;
-        src[(y * w + x) * nc + c] = (unsigned short)v;
-      }
+/* ---- suspending destination manager (libjpeg.txt, "I/O suspension") ---- */
+typedef struct {
+  struct jpeg_destination_mgr pub;
+  unsigned char *buf; size_t bufsize;
+  unsigned char *out; size_t outlen, outcap;
+  int may_suspend, force, refuse, suspensions;
+  unsigned long long s;
+} susp_dest;
+
+static unsigned long long sd_rnd(susp_dest *d)
+{
+  unsigned long long z = (d->s += 0x9E3779B97F4A7C15ULL);
+  z = (z ^ (z >> 30)) * 0xBF58476D1CE4E5B9ULL;
+  z = (z ^ (z >> 27)) * 0x94D049BB133111EBULL;
+  return z ^ (z >> 31);
+}
+static void sd_flush(susp_dest *d)      /* write only the data up to next_output_byte */
+{
+  size_t n = d->bufsize - d->pub.free_in_buffer;
+  if (d->outlen + n > d->outcap) { d->outcap = (d->outlen + n) * 2 + 64; d->out = realloc(d->out, d->outcap); }
+  memcpy(d->out + d->outlen, d->buf, n);
+  d->outlen += n;
+  d->pub.next_output_byte = d->buf;
+  d->pub.free_in_buffer = d->bufsize;
+}
+static void sd_init(j_compress_ptr cinfo) { susp_dest *d = (susp_dest *)cinfo->dest; d->pub.next_output_byte = d->buf; d->pub.free_in_buffer = d->bufsize; }
+static boolean sd_empty(j_compress_ptr cinfo)
+{
+  susp_dest *d = (susp_dest *)cinfo->dest;
+  if (d->may_suspend) { d->suspensions++; return FALSE; }   /* suspend: do nothing else */
+  d->pub.free_in_buffer = 0;       /* non-suspending behaviour: the whole buffer has been filled */
+  sd_flush(d);
+  return TRUE;
+}
+static void sd_term(j_compress_ptr cinfo) { sd_flush((susp_dest *)cinfo->dest); }
+
+/* write all scanlines of src; sd != NULL: suspending protocol */
+static void write_image(j_compress_ptr cc, const unsigned short *src, int bits, int w, int h, int nc, susp_dest *sd)
+{
+  JSAMPLE *row8 = NULL; J12SAMPLE *row12 = NULL; int i, first = 1; long stalls = 0;
+  if (bits == 8) row8 = malloc(w * nc); else row12 = malloc(sizeof(J12SAMPLE) * w * nc);
+  while (cc->next_scanline < cc->image_height) {
+    int y = cc->next_scanline; JDIMENSION n; int was_empty = sd && sd->pub.free_in_buffer == sd->bufsize;
+    /* The destination is in suspending mode for a whole jpeg_write_scanlines call or not at all (a refusal after
+     * part of an MCU has been accepted would lose the backtracking point).  Not in suspending mode: during the
+     * first call (it writes the frame and scan headers, which cannot be suspended), when an empty buffer was not
+     * enough for one MCU, and otherwise at random. */
+    if (sd) sd->may_suspend = (y > 0 || stalls > 0 ? 1 : 0) && !sd->force && (int)(sd_rnd(sd) % 100) < sd->refuse;
+    if (sd && y == 0 && first) { sd->may_suspend = 0; first = 0; }
+    if (bits == 8) { JSAMPROW rp = row8; for (i = 0; i < w * nc; i++) row8[i] = (JSAMPLE)src[y * w * nc + i]; n = jpeg_write_scanlines(cc, &rp, 1); }
+    else { J12SAMPROW rp = row12; for (i = 0; i < w * nc; i++) row12[i] = (J12SAMPLE)src[y * w * nc + i]; n = jpeg12_write_scanlines(cc, &rp, 1); }
+    if (sd) {
+      if (n == 0) {                 /* suspended: make room and call again with the same scanline */
+        sd->force = was_empty;      /* an empty buffer was not enough for one MCU: do not refuse next time */
+        sd_flush(sd);
+        if (++stalls > 10000000) break;
+      } else sd->force = 0;
+    } else if (n == 0) break;
+  }
+  if (sd) { sd->may_suspend = 0; sd->force = 0; sd_flush(sd); }
+  free(row8); free(row12);
+}
+
+static void read_image(j_decompress_ptr dc, unsigned short *dst, int bits, int w, int nc)
+{
+  int i, y;
+  if (bits == 8) {
+    JSAMPLE *row = malloc(w * nc); JSAMPROW rp = row;
+    while (dc->output_scanline < dc->output_height) {
+      y = dc->output_scanline;
+      if (jpeg_read_scanlines(dc, &rp, 1) != 1) break;
+      for (i = 0; i < w * nc; i++) dst[y * w * nc + i] = row[i];
     }
-    if (setjmp(jb)) { printf("api err %d\n", last_err); jpeg_abort_compress(&cc); jpeg_abort_decompress(&dc); continue; }
-    /* ---- compress ---- */
-    free(jbuf); jbuf = NULL; jlen = 0;
+    free(row);
+  } else {
+    J12SAMPLE *row = malloc(sizeof(J12SAMPLE) * w * nc); J12SAMPROW rp = row;
+    while (dc->output_scanline < dc->output_height) {
+      y = dc->output_scanline;
+      if (jpeg12_read_scanlines(dc, &rp, 1) != 1) break;
+      for (i = 0; i < w * nc; i++) dst[y * w * nc + i] = (unsigned short)row[i];
+    }
+    free(row);
+  }
+}
+
+static void print_header(const unsigned char *jbuf, unsigned long jlen)
+{
+  int k;
+  if (jlen < 2) return;
+  printf("%02x%02x", jbuf[0], jbuf[1]);
+  for (k = 2; k + 3 < (int)jlen && jbuf[k] == 0xFF; ) {
+    int L = (jbuf[k + 2] << 8) | jbuf[k + 3], j;
+    if (jbuf[k + 1] == 0xDA) { printf("ffda"); break; }
+    if (jbuf[k + 1] == 0xD9) { printf("ffd9"); break; }
+    for (j = 0; j < L + 2 && k + j < (int)jlen; j++) printf("%02x", jbuf[k + j]);
+    k += L + 2;
+  }
+}
+
+static void print_blocks(const unsigned short *src, const unsigned short *dst, int w, int h, int nc)
+{
+  int c, x, y;
+  for (c = 0; c < nc; c++)
+    for (y = 0; y < h; y += 8) for (x = 0; x < w; x += 8) {
+      long long sse = 0; int n = 0, ma = 0, yy, xx;
+      for (yy = y; yy < y + 8 && yy < h; yy++) for (xx = x; xx < x + 8 && xx < w; xx++) {
+        int d = (int)dst[(yy * w + xx) * nc + c] - (int)src[(yy * w + xx) * nc + c];
+        if (d < 0) d = -d;
+        if (d > ma) ma = d;
+        sse += (long long)d * d; n++;
+      }
+      printf(" %d:%d:%d:%d:%lld:%d", c, x / 8, y / 8, n, sse, ma);
+    }
+}
+
+static struct jpeg_compress_struct cc; static struct jpeg_decompress_struct dc; static struct jpeg_error_mgr ce, de;
+static unsigned short *src, *dst; static unsigned char *jbuf; static unsigned long jlen; static susp_dest sd;
+
+static void do_api(void)
+{
+  int bits, nc, w, h, kind, p1, quality, optimize, direct, ntab, i, c, t, susp = 0;
+  int tq[4];
+  if (nvals < 11) { printf("api badcase\n"); return; }
+  bits = vals[0]; nc = vals[1]; w = vals[2]; h = vals[3]; kind = vals[4]; p1 = vals[5];
+  quality = vals[7]; optimize = vals[8]; direct = vals[9]; ntab = vals[10];
+  if (ntab < 0 || ntab > 4 || (nvals != 11 + 64 * ntab + 4 && nvals != 11 + 64 * ntab + 7) || (nc != 1 && nc != 3 && nc != 4) ||
+      (bits != 8 && bits != 12) || w < 1 || h < 1 || w > 512 || h > 512) { printf("api badcase\n"); return; }
+  for (i = 0; i < 4; i++) tq[i] = vals[11 + 64 * ntab + i];
+  susp = nvals == 11 + 64 * ntab + 7;
+  free(src); free(dst);
+  src = gen_image(bits, nc, w, h, kind, p1, (unsigned long long)vals[6]); dst = calloc(sizeof(unsigned short), w * h * nc);
+  if (setjmp(jb)) { printf("api err %d\n", last_err); jpeg_abort_compress(&cc); jpeg_abort_decompress(&dc); return; }
+  free(jbuf); jbuf = NULL; jlen = 0;
+  free(sd.buf); free(sd.out); memset(&sd, 0, sizeof(sd));
+  if (susp) {
+    sd.bufsize = (size_t)vals[11 + 64 * ntab + 4]; sd.refuse = (int)vals[11 + 64 * ntab + 5]; sd.s = (unsigned long long)vals[11 + 64 * ntab + 6];
+    if (sd.bufsize < 16) sd.bufsize = 16;
+    sd.buf = malloc(sd.bufsize);
+    sd.pub.init_destination = sd_init; sd.pub.empty_output_buffer = sd_empty; sd.pub.term_destination = sd_term;
+    cc.dest = &sd.pub;
+  } else {
+    if (cc.dest == &sd.pub) cc.dest = NULL;
     jpeg_mem_dest(&cc, &jbuf, &jlen);
-    cc.image_width = w; cc.image_height = h; cc.input_components = nc;
-    cc.in_color_space = nc == 1 ? JCS_GRAYSCALE : nc == 3 ? JCS_RGB : JCS_CMYK;
-    cc.data_precision = bits;
-    jpeg_set_defaults(&cc);
-    cc.data_precision = bits;
-    jpeg_set_colorspace(&cc, cc.in_color_space);     /* no colour transform, all sampling factors 1 */
-    cc.dct_method = JDCT_ISLOW;
-    if (quality >= 0) jpeg_set_quality(&cc, quality, FALSE);
-    for (t = 0; t < ntab; t++) {
-      unsigned int tbl[64];
-      for (i = 0; i < 64; i++) tbl[i] = (unsigned int)vals[11 + 64 * t + i];
-      jpeg_add_quant_table(&cc, t, tbl, 100, FALSE);
-      if (direct) for (i = 0; i < 64; i++) cc.quant_tbl_ptrs[t]->quantval[i] = (UINT16)tbl[i];
-    }
-    for (c = 0; c < nc; c++) {
-      if (tq[c] >= 0) cc.comp_info[c].quant_tbl_no = tq[c];
-      cc.comp_info[c].h_samp_factor = cc.comp_info[c].v_samp_factor = 1;
-    }
-    cc.optimize_coding = optimize ? TRUE : cc.optimize_coding;
-    jpeg_start_compress(&cc, TRUE);
-    if (bits == 8) {
-      JSAMPLE *row = malloc(w * nc); JSAMPROW rp = row;
-      for (y = 0; y < h; y++) {
-        for (i = 0; i < w * nc; i++) row[i] = (JSAMPLE)src[y * w * nc + i];
-        jpeg_write_scanlines(&cc, &rp, 1);
-      }
-      free(row);
-    } else {
-      J12SAMPLE *row = malloc(sizeof(J12SAMPLE) * w * nc); J12SAMPROW rp = row;
-      for (y = 0; y < h; y++) {
-        for (i = 0; i < w * nc; i++) row[i] = (J12SAMPLE)src[y * w * nc + i];
-        jpeg12_write_scanlines(&cc, &rp, 1);
-      }
-      free(row);
-    }
-    jpeg_finish_compress(&cc);
-    /* ---- decompress ---- */
-    jpeg_mem_src(&dc, jbuf, jlen);
+  }
+  cc.image_width = w; cc.image_height = h; cc.input_components = nc;
+  cc.in_color_space = nc == 1 ? JCS_GRAYSCALE : nc == 3 ? JCS_RGB : JCS_CMYK;
+  cc.data_precision = bits;
+  jpeg_set_defaults(&cc);
+  cc.data_precision = bits;
+  jpeg_set_colorspace(&cc, cc.in_color_space);     /* no colour transform, all sampling factors 1 */
+  cc.dct_method = JDCT_ISLOW;
+  if (quality >= 0) jpeg_set_quality(&cc, quality, FALSE);
+  for (t = 0; t < ntab; t++) {
+    unsigned int tbl[64];
+    for (i = 0; i < 64; i++) tbl[i] = (unsigned int)vals[11 + 64 * t + i];
+    jpeg_add_quant_table(&cc, t, tbl, 100, FALSE);
+    if (direct) for (i = 0; i < 64; i++) cc.quant_tbl_ptrs[t]->quantval[i] = (UINT16)tbl[i];
+  }
+  for (c = 0; c < nc; c++) {
+    if (tq[c] >= 0) cc.comp_info[c].quant_tbl_no = tq[c];
+    cc.comp_info[c].h_samp_factor = cc.comp_info[c].v_samp_factor = 1;
+  }
+  cc.optimize_coding = optimize ? TRUE : cc.optimize_coding;
+  jpeg_start_compress(&cc, TRUE);
+  write_image(&cc, src, bits, w, h, nc, susp ? &sd : NULL);
+  jpeg_finish_compress(&cc);
+  if (susp) { cc.dest = NULL; }
+  {
+    const unsigned char *jp = susp ? sd.out : jbuf; unsigned long jl = susp ? (unsigned long)sd.outlen : jlen;
+    jpeg_mem_src(&dc, jp, jl);
     jpeg_read_header(&dc, TRUE);
     dc.out_color_space = dc.jpeg_color_space;
     dc.dct_method = JDCT_ISLOW;
     jpeg_start_decompress(&dc);
     if ((int)dc.output_width != w || (int)dc.output_height != h || dc.output_components != nc || dc.data_precision != bits) {
       printf("api geometry %u %u %d %d\n", dc.output_width, dc.output_height, dc.output_components, dc.data_precision);
-      jpeg_abort_decompress(&dc); continue;
+      jpeg_abort_decompress(&dc); return;
     }
-    if (bits == 8) {
-      JSAMPLE *row = malloc(w * nc); JSAMPROW rp = row;
-      while (dc.output_scanline < dc.output_height) {
-        y = dc.output_scanline;
-        if (jpeg_read_scanlines(&dc, &rp, 1) != 1) break;
-        for (i = 0; i < w * nc; i++) dst[y * w * nc + i] = row[i];
-      }
-      free(row);
-    } else {
-      J12SAMPLE *row = malloc(sizeof(J12SAMPLE) * w * nc); J12SAMPROW rp = row;
-      while (dc.output_scanline < dc.output_height) {
-        y = dc.output_scanline;
-        if (jpeg12_read_scanlines(&dc, &rp, 1) != 1) break;
-        for (i = 0; i < w * nc; i++) dst[y * w * nc + i] = (unsigned short)row[i];
-      }
-      free(row);
-    }
+    read_image(&dc, dst, bits, w, nc);
     jpeg_finish_decompress(&dc);
-    /* ---- report ---- */
     printf("api ok ");
-    printf("%02x%02x", jbuf[0], jbuf[1]);
-    for (k = 2; k + 3 < (int)jlen && jbuf[k] == 0xFF; ) {
-      int L = (jbuf[k + 2] << 8) | jbuf[k + 3], j;
-      if (jbuf[k + 1] == 0xDA) { printf("ffda"); break; }
-      for (j = 0; j < L + 2 && k + j < (int)jlen; j++) printf("%02x", jbuf[k + j]);
-      k += L + 2;
-    }
+    print_header(jp, jl);
     printf(" |");
-    for (c = 0; c < nc; c++)
-      for (y = 0; y < h; y += 8) for (x = 0; x < w; x += 8) {
+    print_blocks(src, dst, w, h, nc);
+    if (susp) printf(" | susp=%d", sd.suspensions);
+    printf("\n");
+  }
+}
+
+static void do_seq(void)
+{
+  /* fresh objects per case, so that a replayed case has exactly this history */
+  struct jpeg_compress_struct sc; struct jpeg_decompress_struct sdc; struct jpeg_error_mgr sce, sde;
+  int bits, nc, prelude, nframes, tq[4], f, pos, i, c;
+  static char *obuf; static size_t olen; static int frame_no;
+  static unsigned short *fsrc, *fdst; static unsigned char *jb_; static unsigned long jl;
+  static FILE *mem;
+  frame_no = -1; fsrc = fdst = NULL; jb_ = NULL; jl = 0; obuf = NULL; olen = 0;
+  if (nvals < 8) { printf("seq badcase\n"); return; }
+  bits = vals[0]; nc = vals[1]; prelude = vals[2]; for (i = 0; i < 4; i++) tq[i] = vals[3 + i]; nframes = vals[7];
+  if ((bits != 8 && bits != 12) || (nc != 1 && nc != 3 && nc != 4) || nframes < 1 || nframes > 32) { printf("seq badcase\n"); return; }
+  sc.err = jpeg_std_error(&sce); sce.error_exit = my_exit; sce.emit_message = my_emit;
+  sdc.err = jpeg_std_error(&sde); sde.error_exit = my_exit; sde.emit_message = my_emit;
+  mem = open_memstream(&obuf, &olen);
+  jpeg_create_compress(&sc);
+  jpeg_create_decompress(&sdc);
+  if (setjmp(jb)) {
+    fclose(mem);
+    printf("seq err %d frame %d\n", last_err, frame_no);
+    jpeg_destroy_compress(&sc); jpeg_destroy_decompress(&sdc); free(fsrc); free(fdst); free(jb_); free(obuf);
+    return;
+  }
+  pos = 8;
+  for (f = 0; f < nframes; f++) {
+    int w, h, kind, p1, wat, optimize, nops, o;
+    frame_no = f;
+    if (pos + 8 > nvals) { last_err = -1; longjmp(jb, 1); }
+    w = vals[pos]; h = vals[pos + 1]; kind = vals[pos + 2]; p1 = vals[pos + 3];
+    wat = vals[pos + 5]; optimize = vals[pos + 6]; nops = vals[pos + 7];
+    free(fsrc); free(fdst);
+    fsrc = gen_image(bits, nc, w, h, kind, p1, (unsigned long long)vals[pos + 4]); fdst = calloc(sizeof(unsigned short), w * h * nc);
+    pos += 8;
+    free(jb_); jb_ = NULL; jl = 0;
+    jpeg_mem_dest(&sc, &jb_, &jl);
+    sc.image_width = w; sc.image_height = h; sc.input_components = nc;
+    sc.in_color_space = nc == 1 ? JCS_GRAYSCALE : nc == 3 ? JCS_RGB : JCS_CMYK;
+    if (f == 0) {
+      sc.data_precision = bits;
+      jpeg_set_defaults(&sc);
+      sc.data_precision = bits;
+      jpeg_set_colorspace(&sc, sc.in_color_space);
+      sc.dct_method = JDCT_ISLOW;
+    }
+    for (o = 0; o < nops; o++) {
+      int m = vals[pos++];
+      if (m == 1) { jpeg_set_quality(&sc, (int)vals[pos++], FALSE); }
+      else {
+        unsigned int tbl[64]; int t = vals[pos++], scale = 100;
+        if (pos + 64 > nvals) { last_err = -1; longjmp(jb, 1); }
+        for (i = 0; i < 64; i++) tbl[i] = (unsigned int)vals[pos + i];
+        pos += 64;
+        if (m == 3) scale = vals[pos++];
+        if (m == 0 || m == 3 || sc.quant_tbl_ptrs[t] == NULL) jpeg_add_quant_table(&sc, t, tbl, scale, FALSE);
+        if (m == 2) {
+          for (i = 0; i < 64; i++) sc.quant_tbl_ptrs[t]->quantval[i] = (UINT16)tbl[i];
+          sc.quant_tbl_ptrs[t]->sent_table = FALSE;
+        }
+      }
+    }
+    if (f == 0)
+      for (c = 0; c < nc; c++) {
+        sc.comp_info[c].quant_tbl_no = tq[c];
+        sc.comp_info[c].h_samp_factor = sc.comp_info[c].v_samp_factor = 1;
+      }
+    sc.optimize_coding = (optimize || bits == 12) ? TRUE : FALSE;
+    if (f == 0 && prelude) {
+      jpeg_write_tables(&sc);
+      jpeg_mem_src(&sdc, jb_, jl);
+      if (jpeg_read_header(&sdc, FALSE) != JPEG_HEADER_TABLES_ONLY) { last_err = -2; longjmp(jb, 1); }
+      { int k; fprintf(mem, "%02x%02x", jb_[0], jb_[1]);
+        for (k = 2; k + 3 < (int)jl && jb_[k] == 0xFF && jb_[k + 1] != 0xD9; ) { int L = (jb_[k + 2] << 8) | jb_[k + 3], j;
+          for (j = 0; j < L + 2 && k + j < (int)jl; j++) fprintf(mem, "%02x", jb_[k + j]); k += L + 2; }
+        fprintf(mem, " | ;"); }
+      free(jb_); jb_ = NULL; jl = 0;
+      jpeg_mem_dest(&sc, &jb_, &jl);
+    }
+    jpeg_start_compress(&sc, wat ? TRUE : FALSE);
+    write_image(&sc, fsrc, bits, w, h, nc, NULL);
+    jpeg_finish_compress(&sc);
+    jpeg_mem_src(&sdc, jb_, jl);
+    jpeg_read_header(&sdc, TRUE);
+    sdc.out_color_space = sdc.jpeg_color_space;
+    sdc.dct_method = JDCT_ISLOW;
+    jpeg_start_decompress(&sdc);
+    if ((int)sdc.output_width != w || (int)sdc.output_height != h || sdc.output_components != nc) { last_err = -3; longjmp(jb, 1); }
+    read_image(&sdc, fdst, bits, w, nc);
+    jpeg_finish_decompress(&sdc);
+    /* header + blocks of this frame */
+    { int k, x, y; fprintf(mem, " %02x%02x", jb_[0], jb_[1]);
+      for (k = 2; k + 3 < (int)jl && jb_[k] == 0xFF; ) { int L = (jb_[k + 2] << 8) | jb_[k + 3], j;
+        if (jb_[k + 1] == 0xDA) { fprintf(mem, "ffda"); break; }
+        for (j = 0; j < L + 2 && k + j < (int)jl; j++) fprintf(mem, "%02x", jb_[k + j]); k += L + 2; }
+      fprintf(mem, " |");
+      for (c = 0; c < nc; c++) for (y = 0; y < h; y += 8) for (x = 0; x < w; x += 8) {
         long long sse = 0; int n = 0, ma = 0, yy, xx;
         for (yy = y; yy < y + 8 && yy < h; yy++) for (xx = x; xx < x + 8 && xx < w; xx++) {
-          int d = (int)dst[(yy * w + xx) * nc + c] - (int)src[(yy * w + xx) * nc + c];
+          int d = (int)fdst[(yy * w + xx) * nc + c] - (int)fsrc[(yy * w + xx) * nc + c];
           if (d < 0) d = -d;
           if (d > ma) ma = d;
           sse += (long long)d * d; n++;
         }
-        printf(" %d:%d:%d:%d:%lld:%d", c, x / 8, y / 8, n, sse, ma);
+        fprintf(mem, " %d:%d:%d:%d:%lld:%d", c, x / 8, y / 8, n, sse, ma);
       }
-    printf("\n");
+      if (f + 1 < nframes) fprintf(mem, " ;"); }
+  }
+  fclose(mem);
+  printf("seq ok%s%s\n", obuf[0] == ' ' ? "" : " ", obuf);
+  jpeg_destroy_compress(&sc); jpeg_destroy_decompress(&sdc); free(fsrc); free(fdst); free(jb_); free(obuf);
+}
+
+int main(void)
+{
+  setvbuf(stdout, NULL, _IOLBF, 0);
+  vals = malloc(sizeof(long) * MAXVALS);
+  cc.err = jpeg_std_error(&ce); ce.error_exit = my_exit; ce.emit_message = my_emit;
+  dc.err = jpeg_std_error(&de); de.error_exit = my_exit; de.emit_message = my_emit;
+  jpeg_create_compress(&cc);
+  jpeg_create_decompress(&dc);
+  while (getline(&line, &cap, stdin) > 0) {
+    if (!strncmp(line, "api ", 4)) { parse(line + 4); do_api(); }
+    else if (!strncmp(line, "seq ", 4)) { parse(line + 4); do_seq(); }
+    else printf("unknown\n");
   }
   if (setjmp(jb)) return 0;
+  cc.dest = NULL;
   jpeg_destroy_compress(&cc);
   jpeg_destroy_decompress(&dc);
-  free(jbuf); free(src); free(dst); free(vals); free(line);
+  free(jbuf); free(src); free(dst); free(vals); free(line); free(sd.buf); free(sd.out);
   return 0;
 }
